@@ -121,7 +121,10 @@ def interp_refine(ctx, cfg, d, field, u0s, t0, hs):
                 sm.compare_bw(ctx, f"interp.{name}", impl[j]["bw"], mod["bw"], 1e-8, case, f"{sigp}:{name}", kappa=max(1.0, kp), prior_var=prior_var)
     ctx.case(dict(cfg.key(), d=d, mode="interpolate_fwd", frac=frac))
     # at t1
-    sol, res = solver.interpolate_fwd_at_t1(t=st1.t, interp_from=st0, interp_to=st1)
+    # the checkpoint handed to the at-step-end branch lies within eps of the step end but need not be bit-identical to it:
+    # all three states are reported at the step end (interp_to.t), not at the requested time
+    t_req = st1.t + float(gen.pick(ctx.rng, [0.0, 3e-9, -3e-9]))
+    sol, res = solver.interpolate_fwd_at_t1(t=t_req, interp_from=st0, interp_to=st1)
     outs = [sm.state_slices(cfg, sol), sm.state_slices(cfg, res.step_from), sm.state_slices(cfg, res.interp_from)]
     for j in range(len(p1s)):
         ans = Cut(ctx.drv.call("sv_interpolate_at_t1", strat, n, *sm.st_args(p1s[j])))
